@@ -6,7 +6,8 @@
 (* of io/fs.ValidPath and of golang.org/x/mod/module.CheckFilePath, i.e.   *)
 (* the rules the go command applies (not from llgo's code):                *)
 (*   - a pattern is a slash-separated path.Match glob, relative to the     *)
-(*     package directory; it must not contain "." / ".." / empty elements, *)
+(*     package directory (whose own location and name play no role);       *)
+(*     it must not contain "." / ".." / empty elements,                    *)
 (*     nor begin or end with a slash, nor be "."; the optional prefix      *)
 (*     "all:" only changes how directories are walked;                     *)
 (*   - the glob is matched element by element against directory entries    *)
